@@ -59,7 +59,7 @@ def setup():
     CS.freeze_gc()
 
 
-FAMS = ["scalar", "in_list", "column", "chain3", "chain4", "where_lambda", "expr_closure", "base_table", "orm_criteria"]
+FAMS = ["scalar", "in_list", "column", "chain3", "chain4", "where_lambda", "expr_closure", "base_table", "same_code_twice", "orm_criteria"]
 COLS = ["id", "qty"]
 OWNERS = ["alice", "bob", "carl"]
 
@@ -155,6 +155,21 @@ def dir_base(tbl, lo, n, links):
     return s
 
 
+def _gt(col, v):
+    return lambda: col > v
+
+
+def lam_twice(c1, v1, c2, v2):
+    """one lambda code object used twice in one statement, each use with its own closure values"""
+    items, select = _m["items"], _m["select"]
+    return select(items.c.id).where(_gt(c1, v1)).where(_gt(c2, v2)).order_by(items.c.id)
+
+
+def dir_twice(c1, v1, c2, v2):
+    items, select = _m["items"], _m["select"]
+    return select(items.c.id).where(c1 > v1).where(c2 > v2).order_by(items.c.id)
+
+
 def lam_where(v, w):
     items, select = _m["items"], _m["select"]
     return select(items.c.id).where(lambda: items.c.qty > v).where(lambda: items.c.id != w).order_by(items.c.id)
@@ -212,6 +227,13 @@ def make(fam, a, lc):
         tbl = [items, _m["User"].__table__, _m["Address"].__table__][a[0] % 3]
         lo, n, links = [0, 1, 3][a[1] % 3], [2, 5][a[2] % 2], 2 + a[3] % 3
         return lam_base(lc, tbl, lo, n, links), dir_base(tbl, lo, n, links), "core", "tbl=%s lo=%s n=%s links=%d" % (tbl.name, lo, n, links)
+    if fam == "same_code_twice":
+        # (both uses on the same column with a smaller second value is KF-C17-3: drawn in a quarter of the cases only)
+        same = a[0] % 4 == 0
+        c1 = items.c.qty
+        c2 = items.c.qty if same else items.c.id
+        v1, v2 = [5, 8, 9][a[1] % 3], [1, 2, 4][a[2] % 3]
+        return lam_twice(c1, v1, c2, v2), dir_twice(c1, v1, c2, v2), "core", "cols=%s,%s v=%s,%s" % (c1.key, c2.key, v1, v2)
     if fam == "where_lambda":
         v, w = [1, 4, 7][a[0] % 3], 1 + a[1] % 7
         return lam_where(v, w), dir_where(v, w), "core", "v=%s w=%s" % (v, w)
